@@ -13,12 +13,12 @@
 EXTENDS WireOps, TLC
 
 CONSTANTS TcCode,      \* FALSE: the document's input; TRUE: traffic class masked as in the code
-          Fills        \* byte patterns of the base packets
+          Fills,       \* byte patterns of the base packets
+          PathKinds    \* subset of {"empty", "onehop", "scion1", "scion2", "scion3", "epic2"}
 
 VARIABLES st
 vars == <<st>>
 
-PathKinds == {"empty", "onehop", "scion1", "scion2", "scion3", "epic2"}
 SpiKinds == {"nodrkey", "ashost-sender", "ashost-receiver", "hosthost-sender", "hosthost-receiver"}
 
 Fill(n, f) == [i \in 1..n |-> (f + 37 * i) % 256]
